@@ -339,6 +339,9 @@ Definition glue_C11 (k : string) (a o : list value) : option verdict :=
   else if is k "c11.req" then glue_req a o
   else if is k "c11.resp" then glue_resp a o
   else if is k "c11.hist" then glue_hist a o
+  (* the same histories through the SCION client (packet authentication and NTS both on):
+     requests and replies are the NTP/NTS payloads of the SCION/UDP packets *)
+  else if is k "c11.shist" then glue_hist a o
   else if is k "c11.store" then glue_store a o
   else if is k "c11.srv" then glue_srv a o
   else None.
